@@ -9,3 +9,5 @@ import RasnModel.Props.C05
 import RasnModel.Driver.Struct
 import RasnModel.Props.C02
 import RasnModel.Props.C03
+import RasnModel.Props.C04
+import RasnModel.Driver.C04
